@@ -287,6 +287,39 @@ TABLE = [
      [('self.wf_spec.get_task_requires(task_spec)', True), ('self._get_task_executions(name=task_spec.get_name())', False)]),
     (('C05',), 'mistral.workflow.direct_workflow.DirectWorkflowController.evaluate_workflow_final_context', 'evaluate_upstream_context',
      [('cfg.CONF.context_versioning.enabled', True)]),
+    # ---- refusals: `!Exc` = every `raise Exc(...)` of the function.  A
+    # refusal that gains a condition is a check that is skipped; here ALL
+    # dominating facts count (state tests included)
+    (('C19',), 'mistral.utils.egress.validate_url', '!UrlNotAllowedException',
+     [("parse.urlsplit(url).scheme in ('http', 'https')", False), ('parse.urlsplit(url).hostname', False), ("parse.urlsplit(url).scheme in ('http', 'https')", True), ('CONF.action_std_http.allowed_hosts', True), ('parse.urlsplit(url).hostname in CONF.action_std_http.allowed_hosts', False), ('parse.urlsplit(url).hostname', True), ('address in network', True), ('CONF.action_std_http.allowed_hosts and parse.urlsplit(url).hostname not in CONF.action_std_http.allowed_hosts', False)]),
+    (('C15',), 'mistral.db.v2.sqlalchemy.api._check_modify_access', '!NotAllowedException',
+     [('context.ctx().is_admin', False), ('db_obj.project_id == security.get_project_id()', False), ('context.has_ctx()', True)]),
+    (('C15',), 'mistral.db.v2.sqlalchemy.api.update_resource_member', '!DBEntityNotFoundError',
+     [('member_id == security.get_project_id()', False), ('res_member', False), ('member_id == security.get_project_id()', True)]),
+    (('C15',), 'mistral.db.v2.sqlalchemy.api.update_workflow_definition', '!NotAllowedException',
+     [("c_t.project_id == get_workflow_definition(identifier, namespace=values.get('namespace')).project_id", False), ("get_workflow_definition(identifier, namespace=values.get('namespace')).scope == 'public'", True), ("values['scope'] == 'private'", True), ("e_t.project_id == get_workflow_definition(identifier, namespace=values.get('namespace')).project_id", False)]),
+    (('C15',), 'mistral.db.v2.sqlalchemy.api.delete_workflow_definition', '!DBError',
+     [('cron_triggers', True), ('event_triggers', True), ('cron_triggers', False)]),
+    (('C15',), 'mistral.api.controllers.v2.member.MembersController.post', '!WorkflowException',
+     [('member_info.member_id', False)]),
+    (('C15',), 'mistral.api.controllers.v2.member.MembersController.put', '!WorkflowException',
+     [('member_info.status', False)]),
+    (('C16',), 'mistral.api.controllers.v2.execution.ExecutionsController.delete', '!NotAllowedException',
+     [('states.is_completed(db_api.get_workflow_execution(id, fields=(db_models.WorkflowExecution.state,))[0])', False), ('force', False)]),
+    (('C16',), 'mistral.api.controllers.v2.execution.ExecutionsController.put.<locals>._compute_delta', '!InputException',
+     [('len(delta.values()) <= 0', True), ("delta.get('description')", True), ("delta.get('state')", True), ('0 < len(delta.values())', True), ("delta.get('env')", True), ("delta['state'] == states.RUNNING", False), ("delta.get('description') and delta.get('state')", False)]),
+    (('C16',), 'mistral.api.controllers.v2.execution.ExecutionsController.put', '!InputException',
+     [("states.is_completed(delta.get('state'))", False), ("delta.get('state') == states.RUNNING", False), ("states.is_paused(delta.get('state'))", False), ("delta.get('state')", True)]),
+    (('C16',), 'mistral.api.controllers.v2.task.TasksController.put', '!WorkflowException',
+     [('task.workflow_name or None', True), ('(task.workflow_name or None) == wf_ex.name', False), ('task.state == states.RUNNING', False), ('task.state == states.SKIPPED', False), ('(task.workflow_name or None) and (task.workflow_name or None) != wf_ex.name', False), ('task_ex.state == states.ERROR', False), ('task.state != states.RUNNING and task.state != states.SKIPPED', False), ('task.reset is Unset', True), ('task.state == states.RUNNING', True), ('task_ex.state == states.ERROR', True), ('task_spec.get_with_items()', False), ('reset', False), ('task.reset is Unset', False)]),
+    (('C16',), 'mistral.api.controllers.v2.action_execution.ActionExecutionsController.put', '!InvalidResultException',
+     [('action_ex.state in SUPPORTED_TRANSITION_STATES', False)]),
+    (('C16',), 'mistral.api.controllers.v2.action_execution.ActionExecutionsController.delete', '!NotAllowedException',
+     [('cfg.CONF.api.allow_action_execution_deletion', False), ('db_api.get_action_execution(id).task_execution_id', True), ('cfg.CONF.api.allow_action_execution_deletion', True), ('states.is_completed(db_api.get_action_execution(id).state)', False), ('db_api.get_action_execution(id).task_execution_id', False)]),
+    (('C14',), 'mistral.lang.base.instantiate_spec', '!InvalidModelException',
+     [('isinstance(data, dict)', False), ("hasattr(spec_cls, '_polymorphic_key')", True), ('issubclass(spec_cls, BaseSpecList)', False)]),
+    (('C14',), 'mistral.lang.base.instantiate_spec', '!DSLParsingException',
+     [('isinstance(data.get(key_name, key_default), (dict, list))', True), ('isinstance(data, dict)', True), ("hasattr(spec_cls, '_polymorphic_key')", True), ('issubclass(spec_cls, BaseSpecList)', False), ("hasattr(cls, '_polymorphic_value')", False), ('concrete_spec_cls is None', True), ('isinstance(data.get(key_name, key_default), (dict, list))', False)]),
 ]
 
 # atoms that are state tests: decided by the state-domain rules
@@ -314,11 +347,11 @@ def _paths(txt):
             if not any(q != p_ and q.startswith(p_ + '.') for q in out)}
 
 
-def enabling_facts(cfg, f, node):
+def enabling_facts(cfg, f, node, all_=False):
     out = []
     for a, t in U.guard_atoms(cfg, node):
         txt = norm(U.canon_expr(f.node, a), 200)
-        if STATEISH.search(txt):
+        if STATEISH.search(txt) and not all_:
             continue
         out.append((txt, t))
     return out
@@ -334,7 +367,17 @@ def required_effects(ctx, rule, prop):
         if f is None:
             raise AnalysisError('required-effects: %s not found' % fq)
         cfg = ctx.cfg(f)
-        if eff.startswith('='):
+        deny = eff.startswith('!')
+        if deny:
+            sites = []
+            for x in cfg.nodes:
+                if x.kind == 'stmt' and isinstance(x.ast, ast.Raise) and \
+                        x.ast.exc is not None:
+                    e = x.ast.exc
+                    d = U.dotted(e.func if isinstance(e, ast.Call) else e)
+                    if d and d.split('.')[-1] == eff[1:]:
+                        sites.append((x, x.ast))
+        elif eff.startswith('='):
             # an attribute store `<obj>.<attr> = ...`
             sites = []
             for t, st in U.attr_stores(f.node):
@@ -353,12 +396,12 @@ def required_effects(ctx, rule, prop):
             # a fact over the same variables as a known enabling fact is
             # the same test spelled differently (`x` / `x is True or x`);
             # what is reported is a condition on something NEW
-            extra = [x for x in enabling_facts(cfg, f, node)
+            extra = [x for x in enabling_facts(cfg, f, node, all_=deny)
                      if x not in allowed and
                      not (_paths(x[0]) and _paths(x[0]) <= known)]
             rule.check(not extra, ctx.construct(f, extra=eff + ' enabled'),
-                       '%s is additionally conditioned on %s: the effect is '
-                       'skipped in situations where the property needs it '
-                       '(known enabling facts: %s)'
+                       '%s is additionally conditioned on %s: the effect / '
+                       'refusal is skipped in situations where the property '
+                       'needs it (known enabling facts: %s)'
                        % (eff, extra, allowed or 'none'), ctx.loc(f, c))
     return n
